@@ -154,12 +154,23 @@ class C05Scenario(ChangeScenario):
         first_type: dict[tuple[str, str], Any] = {}
         first_cycle_over: set[tuple[str, str]] = set()
         clean = not self.carveouts(env) and not env.time_while_pending
+        # a view older than what the operator's own PATCH returned (a foreign edit that slipped in before it) says nothing about
+        # the state of the handling: the progress records are in the newer version
+        post_rv = {r.rid: int(r.post['metadata']['resourceVersion']) for r in env.world.requests
+                   if r.method == 'patch' and r.status == 200 and isinstance(r.post, dict)}
+        own_rv: dict[tuple[str, str], int] = {}
+        stale_now: dict[tuple[str, str], bool] = {}
         for t, k, p in env.obs:
+            if k == 'srv' and p.get('rid') in post_rv and p['verb'] in ('serve', 'respond'):
+                oname = p['path'].rstrip('/').split('/')[-1 if not p['path'].endswith('/status') else -2]
+                own_rv[(p['op'], oname)] = max(own_rv.get((p['op'], oname), 0), post_rv[p['rid']])
+                continue
             if k == 'call' and p['id'] == 'ev':
                 current[(p['op'], p['uid'])] = p
                 sights[(p['op'], p['uid'])] = sights.get((p['op'], p['uid']), 0) + 1
                 first_type.setdefault((p['op'], p['uid']), p.get('etype'))
-                if sights[(p['op'], p['uid'])] > 1 and not any_progress_keys(p['raw']):
+                stale_now[(p['op'], p['uid'])] = int(p['rv']) < own_rv.get((p['op'], p['name']), 0)
+                if sights[(p['op'], p['uid'])] > 1 and not any_progress_keys(p['raw']) and not stale_now[(p['op'], p['uid'])]:
                     first_cycle_over.add((p['op'], p['uid']))     # the cycle that began at first sight has been closed (or had nothing to do)
                 continue
             if k != 'call' or p.get('reason') not in ('create', 'update', 'delete', 'resume'):
@@ -194,7 +205,7 @@ class C05Scenario(ChangeScenario):
                 elif key in first_cycle_over and clean:
                     out.append(self.viol(env, 'resume-not-first-sight', f"t={t}: resume handler {hid} invoked (reason={reason}) on event #{sights[key]} of the object in this "
                                                                         f"process, after the handling that began at its first sight was over", clause='first-sight', how='later-cycle'))
-                elif sights.get(key, 0) > 1 and not any_progress_keys(eraw) and clean:
+                elif sights.get(key, 0) > 1 and not any_progress_keys(eraw) and clean and not stale_now.get(key):
                     out.append(self.viol(env, 'resume-not-first-sight', f"t={t}: resume handler {hid} invoked (reason={reason}) on event #{sights[key]} of the object "
                                                                         f"in this process although no handling was in progress: not the first sight", clause='first-sight', how='later-event'))
             old = last_handled(eraw)
